@@ -28,6 +28,18 @@ def need (api : String) : Nat :=
   match api with
   | "keygen16" => 16 | "keygen64" => 64 | "ss_init_push" => 24 | "ristretto_random" => 64 | "scalar_random" => 0 | _ => 32
 
+/-- `crypto_box_seal` (xsalsa20) / `crypto_box_curve25519xchacha20poly1305_seal` with the ephemeral secret key taken from the scripted source:
+    epk ‖ box(m, nonce = BLAKE2b-192(epk ‖ pk), pk, esk) -/
+def sealBox (xc : Bool) (script m pk : Bytes) : Option String :=
+  let esk := script.take 32
+  let epk := X25519.x25519Base esk
+  let nonce := Blake2b.hash 24 [] [] [] (epk ++ pk)
+  match X25519.scalarmult esk pk with
+  | none => some s!"{sizes [32]} -1"
+  | some q =>
+    let k := if xc then Chacha.hchacha20 (zeros 16) q none else Salsa.hsalsa20 (zeros 16) q none
+    some s!"{sizes [32]} 0 {toHex (epk ++ Aead.secretboxEasy (if xc then Sodium.Driver.C01.pOrig else Sodium.Driver.C01.pSalsa) m nonce k)}"
+
 def genInner (api : String) (script : Bytes) (extra : List String) : Option String :=
   match api, extra with
   | "keygen16", [] => let r := keygen 16 script; some s!"{sizes r.1} {toHex r.2}"
@@ -45,16 +57,8 @@ def genInner (api : String) (script : Bytes) (extra : List String) : Option Stri
     let hdr := script.take 24
     let s := SS.init Sodium.Driver.C09.prims hdr key
     some s!"{sizes [24]} {toHex hdr} {toHex (s.k ++ s.nonce)}"
-  | "seal", [m, pk] => do
-    let m ← ofHex m; let pk ← ofHex pk
-    let esk := script.take 32
-    let epk := X25519.x25519Base esk
-    let nonce := Blake2b.hash 24 [] [] [] (epk ++ pk)
-    match X25519.scalarmult esk pk with
-    | none => some s!"{sizes [32]} -1"
-    | some q =>
-      let k := Salsa.hsalsa20 (zeros 16) q none
-      some s!"{sizes [32]} 0 {toHex (epk ++ Aead.secretboxEasy Sodium.Driver.C01.pSalsa m nonce k)}"
+  | "seal", [m, pk] => do sealBox false script (← ofHex m) (← ofHex pk)
+  | "sealx", [m, pk] => do sealBox true script (← ofHex m) (← ofHex pk)
   | "ed25519_random", [] => some s!"{sizes [32]} {toHex (H2c.fromUniform (script.take 32))}"
   | "ristretto_random", [] => some s!"{sizes [64]} {toHex (Ristretto.fromUniform (script.take 64))}"
   | "scalar_random", [] =>
